@@ -13,6 +13,10 @@ Example C35_discipline_ok : forallb exclusive_entry lru_locks = true.
 Proof. reflexivity. Qed.
 Example C35_modes_exclusive : forall o, mode_of lru_locks o = LockExclusive.
 Proof. destruct o; reflexivity. Qed.
+(* the shape the linearizability theorem assumes, read from the source: each method is ONE
+   critical section (Lock first, defer Unlock next, no other lock call) *)
+Example C35_one_critical_section : forallb snd lru_shapes = true.
+Proof. reflexivity. Qed.
 Example C35_default_capacity : default_lru_capacity = Z.of_N default_capacity.
 Proof. reflexivity. Qed.
 
